@@ -529,7 +529,7 @@ Proof.
   pose proof (fields_loop_ok m (m_fields m) st1 exs HI1 HU1) as Hf.
   destruct (fields_loop D rec m st1 exs (m_fields m)) as [[[st2 exs2] ps]| | |] eqn:Ef; cbn [obind Pf Pg pr3 fst] in *; try exact Hf.
   destruct Hf as [HI2 He2].
-  destruct (existsb ex_pending exs2); [exact I|].
+  destruct (existsb ex_pending exs2); [exact I|]. destruct (negb (exs_names_ok exs2)); [exact I|].
   assert (Hn2 : exs_named m exs2) by (eapply fields_loop_named; eauto).
   destruct (finish_oneofs_ok m Hm exs2 st2 Hn2 HI2) as [H1 H2].
   cbn. split; [exact H1|]. eapply ext_trans; [exact He1|]. eapply ext_trans; [exact He2|exact H2].
